@@ -583,6 +583,7 @@ def c32(ck, F, tier):
     import rules_names as rn_
     ck.rule("NAME-CASE", "stored defined names are compared case-insensitively", floor=5)
     guarded(ck, rn_.defined_name_case, F)
+    guarded(ck, rn_.orphan_names_skipped, F)
 
 def c18(ck, F, tier):
     import rules_attr as ra
